@@ -11,10 +11,10 @@ Glue between the lexer / parser theorems of C04–C06 and the carrier `defShaped
   an upper-case letter other than `B`, then `[_0-9A-Za-z(α-ω)]*`, `ID_LOCAL` = `_` or a lower-case (MATH: or Greek)
   letter, then the same. (From `bestRule_origin`: the token's text is the match of ONE rule with that action, and the
   table has exactly one rule per identifier action.)
-* the carrier is STRICTLY SMALLER than the range of the parser — closed examples:
-  `F1[X1]` (a call of a term function at the top, or as the body of a function definition `[α∈ℬ(R1)] F1[α]`, is not
-  `Wf.wf .ND`: `Wf.shape .ND / .LS` reads `NT_FUNC_CALL` as a predicate call only) and `R0` / `X1∪R01` (an
-  `ID_RADICAL` token `R0…` is not a radical for `Types.isRadical`, so `shapeOK` fails).
+* the carrier is STRICTLY SMALLER than the range of the parser — closed example: `R0` / `X1∪R01` (an
+  `ID_RADICAL` token `R0…` is not a radical for `Types.isRadical`, so `shapeOK` fails). `F1[X1]` (a call of a term
+  function at the top, or as the body of a function definition `[α∈ℬ(R1)] F1[α]`) IS on the carrier since
+  `Wf.shape .ND / .LS` accept both call heads (`Wf.shapeLS`, prover-Wf).
 -/
 namespace CCVerif.ParseShaped
 open CCVerif CCVerif.Syntax CCVerif.Generated CCVerif.Lexer CCVerif.Parser
